@@ -72,8 +72,9 @@ def param_types(fi, c):
     if fi.cls is not None and params and params[0] == 'self' and 'self' not in types:
         types['self'] = 'obj:%s' % (c.get('self_class') or fi.cls.key)
     missing = [p for p in params if p not in types]
-    if missing:
-        raise Unsupported('contract for %s lacks types for %s' % (fi.key, missing))
+    for p in missing:
+        # a parameter the contract does not know (the signature changed): an unknown value - anything the caller may pass
+        types[p] = 'opaque'
     return params, types
 
 
@@ -337,6 +338,7 @@ def verify_target(db, reg, key, timeout_ms=20000, want_smt2=False, findings=(), 
                 'verdict': 'unsat' if n_ > 0 else 'vacuous', 'kind': 'vacuity', 'paths': n_, 'ms': 0, 'backend': '-',
                 'clause': 'trace clause %s yields at least one obligation on some path' % name_}
         # discharge
+        retry_spent = [0]
         for vc in all_vcs:
             o = obl.setdefault(vc.oid, new_ob(vc.kind, vc.info.get('clause', '')))
             o['paths'] += 1
@@ -421,10 +423,14 @@ def verify_target(db, reg, key, timeout_ms=20000, want_smt2=False, findings=(), 
                 if want_smt2:
                     o['smt2'] = vc_smt2(vc)
             else:
-                if o['verdict'] != 'sat' and tier_quick(timeout_ms) and not os.environ.get('PYVC_NO_RETRY'):
+                any_sat = any(x.get('verdict') == 'sat' for x in obl.values())
+                if o['verdict'] != 'sat' and tier_quick(timeout_ms) and not os.environ.get('PYVC_NO_RETRY') \
+                        and not any_sat and retry_spent[0] < 360000:
                     # undecided within the quick budget: one long retry before this is reported (an alarm on the
-                    # unchanged tree must never come from a busy machine)
+                    # unchanged tree must never come from a busy machine).  Not when another obligation of this
+                    # function is already refuted (the verdict is a violation anyway), and at most 6 minutes per function.
                     r3 = smt.solve_full(smt.full_formulas(pc, vc.goal), 180000)
+                    retry_spent[0] += r3['ms']
                     o['ms'] += r3['ms']
                     if r3['verdict'] == 'unsat':
                         if 'z3-long' not in o['backend']:
